@@ -248,8 +248,22 @@ func arrayLit(rel, name string) []uint64 {
 	env := fileConsts(f)
 	e, ok := env[name]
 	if !ok {
-		fail("%s: table %s not found", rel, name)
-		return nil
+		// renamed? the table is then the ONE package-level composite literal of the file with 256 or more elements
+		var cands []ast.Expr
+		for _, v := range env {
+			x := v
+			if ie, ok := x.(*iotaExpr); ok {
+				x = ie.Expr
+			}
+			if cl, ok := x.(*ast.CompositeLit); ok && len(cl.Elts) >= 256 {
+				cands = append(cands, v)
+			}
+		}
+		if len(cands) != 1 {
+			fail("%s: table %s not found", rel, name)
+			return nil
+		}
+		e = cands[0]
 	}
 	if ie, ok := e.(*iotaExpr); ok {
 		e = ie.Expr
